@@ -14,5 +14,6 @@ typedef struct regex *regex_t;
 
 int regcomp(regex_t *preg, char *regex, int cflags);
 int regexec(regex_t *preg, char *str, int nmatch, regmatch_t pmatch[], int eflags);
+int regexec_at(regex_t *preg, char *str, int off, int nmatch, regmatch_t pmatch[], int eflags);
 int regerror(int errcode, regex_t *preg, char *errbuf, int errbuf_size);
 void regfree(regex_t *preg);
